@@ -374,6 +374,13 @@ fn run(ctx: &mut Ctx) {
     // programs; non-constant parameters rejected at any depth of the stack
     {
         let mut rng = ctx.rng(22);
+        {
+            // known finding C12/is-zero-tolerance through a gate parameter (see C14 corpus)
+            use quil_rs::expression::{ExpressionFunction as F, InfixOperator as I};
+            use qvh::expr::{call, infix};
+            let e = call(F::SquareRoot, infix(infix(Expression::PiConstant(), I::Plus, real(2.0)), I::Star, call(F::Sine, Expression::PiConstant())));
+            unitary_case(ctx, &raw("RX", vec![e], &[0], vec![Dagger]), 1);
+        }
         let plus07 = qvh::expr::prefix(quil_rs::expression::PrefixOperator::Plus, real(0.7));
         unitary_case(ctx, &raw("RZ", vec![plus07.clone()], &[0], vec![Dagger]), 1);
         unitary_case(ctx, &raw("RX", vec![real(0.3), plus07.clone()], &[1, 0], vec![Forked]), 2);
